@@ -22,6 +22,29 @@ VERIF = os.path.dirname(os.path.dirname(os.path.abspath(__file__)))
 REPO = os.environ.get("VERIF_REPO", "/repo")
 COQ = os.path.join(VERIF, "coq")
 BUILD = os.path.join(VERIF, "build")
+HARNESS = os.path.join(VERIF, "harness")
+OUTROOT = VERIF          # evidence/ and replay/ live here
+# Alternate-tree mode (used to try a seeded change without touching /repo or the shared build):
+#   VERIF_REPO=/tmp/seed_x VERIF_ALT=x ./check Cnn
+# copies coq/ and harness/ under build/alt/x, points the harness's `replace` at $VERIF_REPO and writes
+# evidence/replay there.  The registered MANIFEST commands never use it.
+ALT = os.environ.get("VERIF_ALT")
+
+
+def setup_alt():
+    global COQ, BUILD, HARNESS, OUTROOT
+    root = os.path.join(VERIF, "build", "alt", ALT)
+    os.makedirs(root, exist_ok=True)
+    subprocess.run(["rsync", "-a", "--delete", "--exclude", "Gen/*.vo", os.path.join(VERIF, "coq") + "/", os.path.join(root, "coq") + "/"], check=True)
+    subprocess.run(["rsync", "-a", "--delete", os.path.join(VERIF, "harness") + "/", os.path.join(root, "harness") + "/"], check=True)
+    gm = os.path.join(root, "harness", "go.mod")
+    t = open(gm).read().replace("=> /repo", "=> " + REPO)
+    open(gm, "w").write(t)
+    COQ = os.path.join(root, "coq")
+    HARNESS = os.path.join(root, "harness")
+    BUILD = os.path.join(root, "build")
+    OUTROOT = root
+    os.makedirs(BUILD, exist_ok=True)
 GOENV = dict(os.environ, GOFLAGS="-mod=mod", GOPROXY="off", CGO_ENABLED=os.environ.get("CGO_ENABLED", "0"))
 GOENV.pop("GOSUMDB", None)
 GOENV.pop("GOTOOLCHAIN", None)
@@ -190,6 +213,8 @@ def main(argv):
     ap.add_argument("--keep", action="store_true", help="keep the run directory")
     a = ap.parse_args(argv)
     pid, tier = a.pid, a.tier if a.tier in ("quick", "thorough") else "quick"
+    if ALT:
+        setup_alt()
     seed = int(os.environ.get("VERIF_SEED", "1") or "1")
     t0 = time.time()
     cfg = json.load(open(os.path.join(VERIF, "props", pid + ".json")))
@@ -197,7 +222,7 @@ def main(argv):
     rundir = os.path.join(BUILD, "run", pid)
     shutil.rmtree(rundir, ignore_errors=True)
     os.makedirs(rundir, exist_ok=True)
-    replaydir = os.path.join(VERIF, "replay")
+    replaydir = os.path.join(OUTROOT, "replay")
     res = {}
     violations = []      # (replay_obj, no_input_flag)
     known_lines = []
@@ -279,7 +304,7 @@ def main(argv):
             env = dict(GOENV)
             if "-race" in cmd:
                 env["CGO_ENABLED"] = "1"
-            rc, out = sh(cmd + ["-o", hbin, "./" + cfg["harness"]], cwd=os.path.join(VERIF, "harness"), env=env, timeout=900)
+            rc, out = sh(cmd + ["-o", hbin, "./" + cfg["harness"]], cwd=HARNESS, env=env, timeout=900)
         if rc != 0:
             tie_broken = "harness does not build against /repo (-tags %s): %s" % (tags, out[-3000:])
         else:
@@ -392,7 +417,7 @@ def main(argv):
     ev = {"property_id": pid, "tier": tier, "seed": seed, "level": "proof", "coverage": cov,
           "assumptions": cfg.get("assumptions", []), "wall_s": round(time.time() - t0, 2),
           "violations": len(violations)}
-    write_json(os.path.join(VERIF, "evidence", pid + ".json"), ev)
+    write_json(os.path.join(OUTROOT, "evidence", pid + ".json"), ev)
 
     for l in known_lines:
         print(l)
